@@ -533,14 +533,30 @@ func (env *c15Env) live(w *fw.Worker, idx int) (*c15Live, error) {
 		return nil, err
 	}
 	if len(lv.dup) == 0 {
-		tg := &tGraph{Name: lv.world.Name}
-		for _, v := range lv.mg.V {
-			tg.V = append(tg.V, v)
+		// the twin is loaded in two calls (the wide world has 1800 rows)
+		name := fmt.Sprintf("w%d", idx)
+		if err := env.db.AddGraph(name); err != nil {
+			return nil, fmt.Errorf("twin: %v", err)
 		}
-		for _, e := range lv.mg.E {
-			tg.E = append(tg.E, e)
+		twin, err := env.db.Graph(name)
+		if err != nil {
+			return nil, fmt.Errorf("twin: %v", err)
 		}
-		lv.twin = loadTGraph(env.db, fmt.Sprintf("w%d", idx), tg)
+		var vs []*gdbi.Vertex
+		var es []*gdbi.Edge
+		for _, k := range sortedModelKeys(lv.mg.V) {
+			vs = append(vs, gq.FromModelElem(lv.mg.V[k]))
+		}
+		for _, k := range sortedModelKeys(lv.mg.E) {
+			es = append(es, gq.FromModelElem(lv.mg.E[k]))
+		}
+		if err := twin.AddVertex(vs); err != nil {
+			return nil, fmt.Errorf("twin: %v", err)
+		}
+		if err := twin.AddEdge(es); err != nil {
+			return nil, fmt.Errorf("twin: %v", err)
+		}
+		lv.twin = twin
 	}
 	env.lives[idx] = lv
 	return lv, nil
@@ -610,6 +626,9 @@ func c15ObsClass(q string) string {
 func c15Obs(w *fw.Worker, env *c15Env, widx int) fw.Result {
 	lv, err := env.live(w, widx)
 	if err != nil {
+		if strings.HasPrefix(err.Error(), "twin:") {
+			return fw.InconclusiveR("loading the embedded-store twin failed: " + err.Error())
+		}
 		return fw.ViolatedR("mapping-refused", fmt.Sprintf("world %d: a well-formed mapping was refused: %v", widx, err), c15WorldByIndex(w.Seed, widx))
 	}
 	res := fw.HeldR(true, "")
@@ -719,6 +738,9 @@ func c15Prog(w *fw.Worker, env *c15Env, cc c15Case) fw.Result {
 	res.AddSet("step_kinds", strings.Split(stepKey(stmts), ">")...)
 	for _, widx := range cc.Worlds {
 		lv, err := env.live(w, widx)
+		if err != nil && strings.HasPrefix(err.Error(), "twin:") {
+			return fw.InconclusiveR("loading the embedded-store twin failed: " + err.Error())
+		}
 		if err != nil {
 			return fw.ViolatedR("mapping-refused", fmt.Sprintf("world %d: a well-formed mapping was refused: %v", widx, err), c15WorldByIndex(w.Seed, widx))
 		}
